@@ -135,6 +135,10 @@ class AbstractModel(ModelObject):
         add_items(other.__dict__)
         return instance
 
+    @assert_not_frozen
+    def __delattr__(self, name):
+        super().__delattr__(name)
+
     def copy(self):
         """
         Create a copy of the model. All priors remain equivalent - i.e. two
